@@ -42,12 +42,16 @@ def handleIntr (args : List Sexp) : String :=
     | _, _, _, _, _, _ => "bad-case"
   | _ => "bad-case"
 
-/-- `followi <oracles> <query> <file> <stop>`: `FollowFileExecutor`'s loop over the delivered lines -/
+/-- `followi <oracles> <query> <ignored> (files <file>) <stop>`: `FollowFileExecutor`'s loop over the delivered
+lines; the executor keeps no line statistics, so only status and records are answered -/
 def handleFollowI (args : List Sexp) : String :=
   match args with
-  | [o, q, f, stop] =>
+  | [o, q, _, .list [.atom "files", f], stop] =>
     match Oracles.ofSexp o, Query.ofSexp q, fileOfSexp f, optNat stop with
-    | some o, some q, some f, some stop => runOutToWire (runFollowAll o q stop (f.map (·.line)))
+    | some o, some q, some f, some stop =>
+      let ro := runFollowAll o q stop (f.map (·.line))
+      if ro.skipped.isSome then "skip " ++ ro.skipped.getD ""
+      else statusOf ro ++ " out=" ++ ",".intercalate (ro.printed.map (fun l => Sexp.showBytes (strBytes l)))
     | _, _, _, _ => "bad-case"
   | _ => "bad-case"
 
